@@ -376,3 +376,13 @@ Proof.
     + rewrite Forall_forall in *. intros kv Hkv. apply (proj1 (spec_sort_In _ _ _)) in Hkv.
       apply in_map_iff in Hkv. destruct Hkv as [kv0 [E Hin]]. subst kv. simpl. apply IH; auto.
 Qed.
+
+(* ---- sort_deep only reorders members: nothing is dropped, duplicated or altered -------------- *)
+Lemma sort_deep_jperm_proof : forall v, jperm v (sort_deep v).
+Proof.
+  induction v as [|b|z|r|s|l IH|m IH] using jvalue_nested_ind; try apply jp_refl.
+  - simpl. apply jp_arr. induction IH as [|x l Hx Hl IHl]; simpl; constructor; assumption.
+  - simpl. eapply jp_obj with (m' := map (fun kv : ustring * jvalue => (fst kv, sort_deep (snd kv))) m).
+    + induction IH as [|kv m Hkv Hm IHm]; simpl; constructor; [split; [reflexivity|exact Hkv]|exact IHm].
+    + apply Permutation_sym. apply spec_sort_perm.
+Qed.
